@@ -493,6 +493,14 @@ class TorchCalls(TorchOps):
         lists = [self.to_list(a, "list", node) for a in args]
         if any(not isinstance(l, ListV) for l in lists):
             return self.unk("zip of non-sequences", node)
+        consts = [l.items is None and l.order is not None and l.order[1] == "const" for l in lists]  # itertools.repeat(x): as long as needed
+        if any(consts) and not all(consts):
+            real = [l for l, c in zip(lists, consts) if not c]
+            if all(l.items is not None for l in real):
+                n = min(len(l.items) for l in real)
+                return ListV(items=tuple(ListV(items=tuple((l.elem if c else l.items[i]) for l, c in zip(lists, consts)), kind="tuple") for i in range(n)))
+            if all(l.items is None for l in real) and len({l.order for l in real}) == 1:
+                return ListV(items=None, elem=ListV(items=tuple(l.elem for l in lists), kind="tuple"), kind="list", over=real[0].over, order=real[0].order)
         if all(l.items is not None for l in lists):
             n = min(len(l.items) for l in lists)
             return ListV(items=tuple(ListV(items=tuple(l.items[i] for l in lists), kind="tuple") for i in range(n)))
@@ -608,6 +616,16 @@ class TorchCalls(TorchOps):
         if isinstance(recv, ClassV) and name == "mro":
             ext = [ExtV(b) for b in recv.cls.external_bases if not b.startswith("typing.") and not b.endswith("Generic")]
             return ListV(items=tuple(ClassV(c) for c in recv.cls.mro) + tuple(ext) + (ExtV("builtins.object"),), kind="list")
+        if isinstance(recv, ObjV) and getattr(recv, "tuple_fields", None) and name in ("_replace", "_asdict"):
+            # typing.NamedTuple instances: a copy with some fields replaced / the fields as a dictionary, in declaration order
+            if name == "_asdict" and not args and not kwargs:
+                return DictV(items=tuple((Const(f_), recv.fields.get(f_, Unk(f"field {f_}"))) for f_ in recv.tuple_fields), ordered=True)
+            if name == "_replace" and not args and set(kwargs) <= set(recv.tuple_fields):
+                o = ObjV(recv.cls)
+                o.fields.update(recv.fields)
+                o.fields.update(kwargs)
+                o.tuple_fields = list(recv.tuple_fields)
+                return o
         if isinstance(recv, ObjV):
             if recv.payload is not None:
                 return self.dict_method(recv.payload, name, args, kwargs, node, env, owner=recv)
